@@ -31,6 +31,14 @@ def gen_scenario(rng):
             vs = sorted(w["products"][n])
             reqs = [{"name": n, "fwd": True, "version": vs[0]}]
             last = {"name": n, "fwd": True, "version": vs[-1]}
+            below = [m for m in sorted(w["products"]) if m < n]
+            if len(below) >= 2 and rng.random() < 0.7:
+                # make sure the set-up chain below the replaced product is deeper than the limit: n -> mid -> low
+                mid, low = below[-1], below[0]
+                for v in w["products"][n]:
+                    w["products"][n][v] = [l for l in w["products"][n][v] if "(%s" % mid not in l] + ["setupRequired(%s)" % mid]
+                for v in w["products"][mid]:
+                    w["products"][mid][v] = [l for l in w["products"][mid][v] if "(%s" % low not in l] + ["setupRequired(%s)" % low]
             r2 = rng.random()
             if r2 < 0.5:
                 last["max_depth"] = rng.choice([1, 1, 2])
@@ -50,7 +58,13 @@ def gen_scenario(rng):
         w["current"][lo] = rng.choice(vs)
         other = rng.choice([v for v in vs if v != w["current"][lo]])
         line = rng.choice(["setupRequired(%s -t current)", "setupOptional(%s -t current)", "setupRequired(%s)",
-                           "setupRequired(%s >= 1.0)"]) % lo
+                           "setupRequired(%s >= 1.0)", "EXPANDED", "EXPANDED"])
+        if line == "EXPANDED":
+            # the form an expanded table has: version and expression, the version set up failing the expression
+            w["current"][lo], other = vs[-1], vs[0]
+            line = "%s(%s %s [>= %s])" % (rng.choice(["setupRequired", "setupOptional"]), lo, vs[-1], vs[-1])
+        else:
+            line = line % lo
         for v in w["products"][top]:
             w["products"][top][v] = [l for l in w["products"][top][v] if "(%s" % lo not in l] + [line]
         reqs = [{"name": lo, "fwd": True, "version": other}]
@@ -136,7 +150,7 @@ def run(ctx):
                        "WF world of Proofs/SetupFrame.v for the theorems: path values non-empty, delimiter-free, "
                        "dollar-free; one delimiter per path variable; path, envSet and SETUP_/_DIR variables disjoint"]
     ctx.check_theorems()
-    scenarios = S.corpus("C04") + [gen_scenario(ctx.rng) for _ in range(ctx.size(160, 2500))]
+    scenarios = S.corpus("C04") + [gen_scenario(ctx.rng) for _ in range(ctx.size(260, 3000))]
     for s in scenarios[:3]:
         ctx.sample({"requests": s["requests"], "env0": s["env0"], "products": s["world"]["products"]})
     for i in range(0, len(scenarios), 400):
